@@ -137,8 +137,15 @@ Section Refine.
 
   Definition recorded (wid : bool) (kp : cidp) : Prop := is_identity kp = true -> wid = true.
 
+  Lemma int64_prefix_all offs : Forall (fun off => off < two63) offs -> int64_prefix offs = (offs, false).
+  Proof.
+    induction 1 as [|off t H _ IH]; [reflexivity|]. cbn [int64_prefix].
+    replace (off <? two63) with true by lia. rewrite IH. reflexivity.
+  Qed.
+
   Lemma ro_find_spec s o wid roots bs npad key kp rb :
     arch_ok o roots bs npad -> opened s o wid roots bs npad ->
+    blen (payload_np roots bs npad) < two63 ->
     cid_parse key = Some kp -> recorded wid kp ->
     match ro_find s key kp rb with
     | Ok (data, doff, n) =>
@@ -149,9 +156,15 @@ Section Refine.
     | Err _ => False
     end.
   Proof.
-    intros Ha (Hview & Hopts & Hs & Hc) Hk Hrec. unfold ro_find. rewrite Hopts.
+    intros Ha (Hview & Hopts & Hs & Hc) H63 Hk Hrec. unfold ro_find. rewrite Hopts.
     set (view := s_view s) in *.
     set (offs := ridx_getall (s_idx s) kp) in *.
+    assert (Hint : int64_prefix offs = (offs, false)).
+    { apply int64_prefix_all. rewrite Forall_forall. intros off Hoff.
+      destruct (Hs kp off Hoff) as (r & Hr & Hro).
+      destruct (payload_records_sound wid roots bs npad r Hr) as (b & p & (pre & rest & Hv & Hpre) & _).
+      rewrite <- Hro, <- Hpre. rewrite Hv, blen_app in H63. lia. }
+    rewrite Hint.
     assert (Hcand : forall off, In off offs -> exists b, cand_ok view (q_maxs o) (off, b) /\ In b bs).
     { intros off Hoff. destruct (Hs kp off Hoff) as (r & Hr & Hro).
       destruct (payload_records_sound wid roots bs npad r Hr) as (b & p & Hsec & Hb & Hp & _).
@@ -168,7 +181,7 @@ Section Refine.
       repeat split; try assumption.
       + intros ->. reflexivity.
       + intros ->. rewrite Forall_forall in Hf. destruct (Hf _ Hin) as [Hsec (mc & Hb)]. cbn [fst snd] in *.
-        apply sec_at_data; [exact Hsec|]. destruct Hb as (p & _ & _ & _ & _ & _ & H63). exact H63.
+        apply sec_at_data; [exact Hsec|]. destruct Hb as (p & _ & _ & _ & _ & _ & Hb63). exact Hb63.
     - intros b Hb. destruct (carries (q_whole o) key kp b) eqn:Ecar; [exfalso|reflexivity].
       unfold carries in Ecar. destruct (cid_parse (fst b)) as [p|] eqn:Ep; [|discriminate].
       destruct (key_matches_mh _ _ _ _ _ Hk Ep Ecar) as [Hcode Hdig].
@@ -216,13 +229,14 @@ Section Refine.
 
   Theorem ro_has_spec s o wid roots bs npad key kp :
     arch_ok o roots bs npad -> opened s o wid roots bs npad ->
+    blen (payload_np roots bs npad) < two63 ->
     cid_parse key = Some kp -> id_guard o wid kp = true ->
     ro_has s key = OBool (ref_has o key kp bs).
   Proof.
-    intros Ha Ho Hk Hg. unfold ro_has, ref_has. rewrite Hk.
+    intros Ha Ho H63 Hk Hg. unfold ro_has, ref_has. rewrite Hk.
     destruct Ho as (Hv & Hopts & Hidx). rewrite Hopts. fold (shortcut o kp).
     destruct (shortcut o kp) eqn:Es; [reflexivity|]. cbn [orb].
-    pose proof (ro_find_spec s o wid roots bs npad key kp false Ha (conj Hv (conj Hopts Hidx)) Hk
+    pose proof (ro_find_spec s o wid roots bs npad key kp false Ha (conj Hv (conj Hopts Hidx)) H63 Hk
                   (guard_recorded o wid kp Hg Es)) as Hf.
     destruct (ro_find s key kp false) as [[[data doff] n]|e].
     - destruct Hf as (c & d & Hin & Hc & Hn & _). rewrite (existsb_carries_true o key kp bs (c, d) Hin Hc).
@@ -239,13 +253,14 @@ Section Refine.
 
   Theorem ro_get_spec s o wid roots bs npad key kp :
     arch_ok o roots bs npad -> opened s o wid roots bs npad ->
+    blen (payload_np roots bs npad) < two63 ->
     cid_parse key = Some kp -> id_guard o wid kp = true ->
     get_spec o key kp bs (ro_get s key).
   Proof.
-    intros Ha Ho Hk Hg. unfold ro_get, get_spec. rewrite Hk.
+    intros Ha Ho H63 Hk Hg. unfold ro_get, get_spec. rewrite Hk.
     destruct Ho as (Hv & Hopts & Hidx). rewrite Hopts. fold (shortcut o kp).
     destruct (shortcut o kp) eqn:Es; [reflexivity|].
-    pose proof (ro_find_spec s o wid roots bs npad key kp true Ha (conj Hv (conj Hopts Hidx)) Hk
+    pose proof (ro_find_spec s o wid roots bs npad key kp true Ha (conj Hv (conj Hopts Hidx)) H63 Hk
                   (guard_recorded o wid kp Hg Es)) as Hf.
     destruct (ro_find s key kp true) as [[[data doff] n]|e].
     - destruct Hf as (c & d & Hin & Hc & Hn & Hd & _). rewrite (Hd eq_refl). split.
@@ -258,13 +273,14 @@ Section Refine.
 
   Theorem sto_get_spec s o wid roots bs npad key kp :
     arch_ok o roots bs npad -> opened s o wid roots bs npad ->
+    blen (payload_np roots bs npad) < two63 ->
     cid_parse key = Some kp -> id_guard o wid kp = true ->
     get_spec o key kp bs (sto_get s key).
   Proof.
-    intros Ha Ho Hk Hg. unfold sto_get, get_spec. rewrite Hk.
+    intros Ha Ho H63 Hk Hg. unfold sto_get, get_spec. rewrite Hk.
     destruct Ho as (Hv & Hopts & Hidx). rewrite Hopts. fold (shortcut o kp).
     destruct (shortcut o kp) eqn:Es; [reflexivity|].
-    pose proof (ro_find_spec s o wid roots bs npad key kp false Ha (conj Hv (conj Hopts Hidx)) Hk
+    pose proof (ro_find_spec s o wid roots bs npad key kp false Ha (conj Hv (conj Hopts Hidx)) H63 Hk
                   (guard_recorded o wid kp Hg Es)) as Hf.
     destruct (ro_find s key kp false) as [[[data doff] n]|e].
     - destruct Hf as (c & d & Hin & Hc & Hn & _ & Hd). rewrite Hn.
@@ -286,13 +302,14 @@ Section Refine.
 
   Theorem ro_getsize_spec s o wid roots bs npad key kp :
     arch_ok o roots bs npad -> opened s o wid roots bs npad ->
+    blen (payload_np roots bs npad) < two63 ->
     cid_parse key = Some kp ->
     getsize_spec o key kp bs (ro_getsize s key).
   Proof.
-    intros Ha Ho Hk. unfold ro_getsize, getsize_spec. rewrite Hk.
+    intros Ha Ho H63 Hk. unfold ro_getsize, getsize_spec. rewrite Hk.
     destruct (is_identity kp) eqn:Ei; [reflexivity|].
     assert (Hrec : recorded wid kp) by (unfold recorded; congruence).
-    pose proof (ro_find_spec s o wid roots bs npad key kp false Ha Ho Hk Hrec) as Hf.
+    pose proof (ro_find_spec s o wid roots bs npad key kp false Ha Ho H63 Hk Hrec) as Hf.
     destruct (ro_find s key kp false) as [[[data doff] n]|e].
     - destruct Hf as (c & d & Hin & Hc & Hn & _). rewrite Hn. split.
       + intros _. exists c, d. repeat split; assumption.
